@@ -42,6 +42,9 @@ package task
 //@ ghost var enumPending bool scratch
 //@ func (*Executor).areTaskRequiredVarsSet
 //@   sweep                                                          [C16]
+//@   nosite store:[]string            -- the guards READ the requirements: the compiled task shares them (its Requires IS  [C18,C11,C13]
+//@   nosite store:VarsWithValidation.*   -- the definition's, by pointer) with every other call of the task, running now or later  [C18,C11,C13]
+//@   nosite store:Requires.*                                                                            [C18,C11,C13]
 //@   init anyMissing := false
 //@   site (*Vars).Get#0 requires arg0 == t.Vars && arg1 == t.Requires.Vars[$i].Name                  [C13]
 //@   site (*Vars).Get#1 ghost anyMissing := anyMissing || !result.1
@@ -49,6 +52,9 @@ package task
 //@   ensures result == nil ==> !anyMissing                                                             [C13]
 //@ func (*Executor).areTaskRequiredVarsAllowedValuesSet
 //@   sweep                                                          [C16]
+//@   nosite store:[]string            -- the guards READ the requirements: the compiled task shares them (its Requires IS  [C18,C11,C13]
+//@   nosite store:VarsWithValidation.*   -- the definition's, by pointer) with every other call of the task, running now or later  [C18,C11,C13]
+//@   nosite store:Requires.*                                                                            [C18,C11,C13]
 //@   init anyBad := false
 //@   site (*Vars).Get#0 requires arg0 == t.Vars && arg1 == t.Requires.Vars[$i].Name                  [C13]
 //@   site slices.Contains#0 requires arg0 == t.Requires.Vars[$i].Enum                                [C13]
@@ -364,7 +370,7 @@ package task
 //@   site (*Executor).RunTask#1 ghost nestFailed := result != nil
 //@   site execext.RunCommand#0 requires !e.Dry                                                         [C12]
 //@   site execext.RunCommand#0 requires semLimited() ==> tok == 1                                      [C07]
-//@   site execext.RunCommand#0 requires arg1.Command == t.Cmds[i].Cmd && arg1.Dir == t.Dir             [C02]
+//@   site execext.RunCommand#0 requires arg1.Command == t.Cmds[i].Cmd && arg1.Dir == t.Dir             [C02,C19]
 //@   site execext.RunCommand#1 ghost shFailed := result != nil
 //@   init shErr := nil
 //@   site execext.RunCommand#1 ghost shErr := result
@@ -705,6 +711,10 @@ package task
 // env.GetFromVars: the environment list (a set); readDotEnv: TASK_X_ settings; collectKeys: sorted afterwards (its
 // contract); TaskfileGraph.Merge: the includes of each edge list are sorted before they are merged (its contract).
 // A map iteration added anywhere else (a decoder, a merge step, a new helper) fails here.
+// Work is handed to goroutines at these places only (the tasks named on the command line, the deps of a task, the
+// includes of a Taskfile, the merge of the include graph, the listings): everything else - fingerprinting, hashing,
+// templating, compiling a task - is sequential code, whose result cannot depend on a schedule
+//@ callers errgroup.(*Group).Go : (*Executor).Run* (*Executor).runDeps* (*Executor).GetTaskList* (*Executor).ToEditorOutput* taskfile.(*Reader).include* ast.(*TaskfileGraph).Merge*   [C09,C18,C11]
 //@ map_ranges : (*Compiler).getVariables itemsFromFor deepcopy.Map env.GetFromVars experiments.readDotEnv fingerprint.collectKeys ast.(*TaskfileGraph).Merge   [C09]
 
 // ---- C11: no state survives from one task to the next except the declared run-time tables ----------------
@@ -760,6 +770,11 @@ package task
 // every SUCCESSFUL evaluation is remembered, whatever it printed (nothing, too): the variables of a task are resolved
 // again when its deferred commands run, and a command that is a one-way guard ("test ! -e out": true before the task,
 // false after it) must not be run a second time - its failure then would cost the task its deferred commands
+// ... and stays remembered for the rest of the run: the table is made when there is none, and never replaced, emptied
+// or trimmed by the code that fills it (only a watch-mode restart drops it, between runs)
+//@   site store:Compiler.dynamicCache#0 requires arg0.dynamicCache == nil                                      [C14,C11]
+//@   nosite delete                                                                                             [C14,C11]
+//@   nosite clear                                                                                              [C14,C11]
 //@   init dynEvaluated := false
 //@   init dynRemembered := false
 //@   site execext.RunCommand#1 ghost dynEvaluated := result == nil
@@ -780,6 +795,9 @@ package task
 //@ ghost var nMethodStores int scratch
 //@ ghost var rvDirty bool scratch
 //@ ghost var lastRV *ast.Vars scratch
+//@ ghost var depsSet bool scratch
+//@ ghost var prefixSet bool scratch
+//@ ghost var cmdsSet bool scratch
 //@ func (*Executor).compiledTask
 // among the dotenv files of a task the FIRST file that defines a name wins: an entry is only added when the
 // name has not been taken yet
@@ -823,6 +841,15 @@ package task
 //@   site append#3 requires (arg1[0].Set == cmd.Set || iscopy(arg1[0].Set, cmd.Set)) && (arg1[0].Shopt == cmd.Shopt || iscopy(arg1[0].Shopt, cmd.Shopt)) && (arg1[0].Platforms == cmd.Platforms || iscopy(arg1[0].Platforms, cmd.Platforms))   [C03,C02]
 //@   site append#4 requires arg1[0].Silent == dep.Silent                                                       [C01]
 //@   site append#5 requires arg1[0].Silent == dep.Silent                                                       [C01]
+// the command and dependency lists of the compiled task only GROW while they are built (one entry per command or
+// dependency of the definition, one per loop item): nothing that was put in is taken out again - a dependency that
+// is listed runs, a listed command runs, however much it resembles another entry
+//@   init depsSet := false
+//@   init cmdsSet := false
+//@   site store:Task.Deps requires !depsSet || len(arg1) >= len(arg0.Deps)                                     [C01,C02,C07]
+//@   site store:Task.Deps#0 ghost depsSet := true
+//@   site store:Task.Cmds requires !cmdsSet || len(arg1) >= len(arg0.Cmds)                                     [C02,C14,C01]
+//@   site store:Task.Cmds#0 ghost cmdsSet := true
 //@   ensures result.1 == nil ==> fresh(result.0)                                                               [C11]
 // the string lists of the compiled task (dotenv, sources ... ) may BE the lists of the definition: the templater
 // hands its argument back, uncopied, once the cache carries an error (and the fast compile goes on after one). They
@@ -834,6 +861,12 @@ package task
 // the method of the compiled task is set once, from the task's own (templated) method: one that is empty stays empty,
 // because "the task names no method" is what makes the Taskfile's method (and, failing that, the default) apply at
 // every place that decides how to fingerprint
+// the prefix of the compiled task is the rendered prefix of the definition, whole, or - when that is empty - the name
+// of the task: the lines of prefixed output carry exactly that text, so two tasks never share a prefix they were not
+// given (nothing shortens or rewrites it on the way)
+//@   init prefixSet := false
+//@   site store:Task.Prefix requires !prefixSet || arg1 == arg0.Task                                          [C17]
+//@   site store:Task.Prefix#0 ghost prefixSet := true
 //@   init nMethodStores := 0
 //@   site store:Task.Method#0 ghost nMethodStores := nMethodStores + 1
 //@   ensures nMethodStores <= 1                                                                               [C05,C04]
@@ -936,6 +969,46 @@ package task
 // directory: it exists on every path that gets this far (a dir that cannot be rendered ends the call before)
 //@   site (*Vars).All#4 requires taskRangeFunc != nil                                                         [C16,C10]
 //@   site (*Vars).All#6 requires taskRangeFunc != nil                                                         [C16,C10]
+//@ ghost var fed bool scratch
+// every variable of every layer reaches the range function, under its own name and with its own value: no layer
+// filters what it hands on (a caller's variable is the one the callee sees, whatever it is called), and the
+// iteration ends early only when the range function failed
+//@ func (*Compiler).getVariables$2
+//@   init fed := false
+//@   site rangeFunc#0 requires arg0 == k && arg1 == v                                                            [C10,C02,C06,C19]
+//@   site rangeFunc#1 ghost fed := true
+//@   ensures fed                                                                                               [C10,C02,C06,C19]
+//@   nosite strings.*                                                                                          [C10,C02,C06]
+//@ func (*Compiler).getVariables$3
+//@   init fed := false
+//@   site rangeFunc#0 requires arg0 == k && arg1 == v                                                            [C10,C02,C06,C19]
+//@   site rangeFunc#1 ghost fed := true
+//@   ensures fed                                                                                               [C10,C02,C06,C19]
+//@   nosite strings.*                                                                                          [C10,C02,C06]
+//@ func (*Compiler).getVariables$4
+//@   init fed := false
+//@   site rangeFunc#0 requires arg0 == k && arg1 == v                                                            [C10,C02,C06,C19]
+//@   site rangeFunc#1 ghost fed := true
+//@   ensures fed                                                                                               [C10,C02,C06,C19]
+//@   nosite strings.*                                                                                          [C10,C02,C06]
+//@ func (*Compiler).getVariables$5
+//@   init fed := false
+//@   site taskRangeFunc#0 requires arg0 == k && arg1 == v                                                            [C10,C02,C06,C19]
+//@   site taskRangeFunc#1 ghost fed := true
+//@   ensures fed                                                                                               [C10,C02,C06,C19]
+//@   nosite strings.*                                                                                          [C10,C02,C06]
+//@ func (*Compiler).getVariables$6
+//@   init fed := false
+//@   site rangeFunc#0 requires arg0 == k && arg1 == v                                                            [C10,C02,C06,C19]
+//@   site rangeFunc#1 ghost fed := true
+//@   ensures fed                                                                                               [C10,C02,C06,C19]
+//@   nosite strings.*                                                                                          [C10,C02,C06]
+//@ func (*Compiler).getVariables$7
+//@   init fed := false
+//@   site taskRangeFunc#0 requires arg0 == k && arg1 == v                                                            [C10,C02,C06,C19]
+//@   site taskRangeFunc#1 ghost fed := true
+//@   ensures fed                                                                                               [C10,C02,C06,C19]
+//@   nosite strings.*                                                                                          [C10,C02,C06]
 //@ func (*Compiler).getSpecialVars
 //@   trusted
 //@   pure allocates
